@@ -96,7 +96,7 @@ impl Prop for IntProp {
             .boxed()
     }
     fn cases(&self, tier: Tier) -> u32 {
-        tier.pick(800, 20_000)
+        tier.pick(800, 8_000)
     }
     fn shards(&self, _tier: Tier) -> u32 {
         16
